@@ -76,7 +76,12 @@ TEXT = {
                  "single/many tag and label, every struct has its rows. Lean theorem emit_correct: the emitted Go (strict helpers of pos_util.go) and the "
                  "documented expression (poslang interpreter semantics) denote the same value, for every expression and context. Finite clauses run by the "
                  "harness: the repository's generators reproduce the committed files byte for byte; poslang.EvalPos agrees with the compiled methods on every "
-                 "node of every explored input; the TREE channel checks the Lean interpreters on the tables against Go's Pos()/End()/Walk per node.",
+                 "node of every explored input; the TREE channel checks the Lean interpreters on the tables against Go's Pos()/End()/Walk per node. "
+                 "Bridge (MF/Props/C19Bridge.lean; hand model = generated tables): the hand-written printers and position formulas of the typed fragment models "
+                 "(expressions: sqlE, exprPrec, posP, endP; types: sqlT, sqlF, posT, endT, posF, endF) are PROVED equal to the generic interpreters (SQL() DSL of ast/sql.go, compiled and "
+                 "documented Pos()/End() of ast/pos.go / ast/ast.go) applied to the tables regenerated on this run, for every tree with non-empty identifiers, hence for every accepted input "
+                 "(sql_bridge_*, pos_bridge_*, pos_doc_bridge_*, *_parsed); one kernel-decided row obligation per node kind breaks when that kind's SQL() body or Pos()/End() method changes. "
+                 "The translation toNodeP / toNodeT into the generic tree is validated by the BRIDGE channel (Go's reflective dump of ParseExpr / ParseType, node for node).",
         "design_ref": "DESIGN.md §4 C19",
         "note": "Trusted: tools/extract (syntactic reader; unrecognised shapes become explicit failing rows), Lean kernel, transcription of poslang/pos_util.",
         "technique": "translator-regenerated tables + kernel evaluation (decide +kernel) + Lean proof of emitter correctness + translation validation",
@@ -130,7 +135,7 @@ TEXT = {
                      "on the tree with continuation-passing statements for the loop levels) + model/implementation correspondence + table-driven predicate",
     },
     "C01": {
-        "level": "Proof (partial: a fragment). Explored on the real entry points: for every error-free parse of the corpus, probes, mutations and expression soups, SQL() re-parses with the same entry point to a tree equal up to position values and is a fixed point. Two recorded known findings (join method, empty PRIMARY KEY) are recognised by call site. PROVED for the expression fragment M1 of C07 (MF/Props/C01Expr.lean, on the models of lexer.go, parseExpr..parseLit and the SQL() methods): the byte-level round trip `roundtrip_expr_partial` (accepted input => the SQL() text lexes and parses to the same tree, under the necessary hypothesis that no identifier token reads SAFE_CAST / REPLACE_FIELDS), `printed_lexes` (the lexer reads the printed text of ANY tree with lexer-producible leaves as exactly the printer's tokens), `fixed_point_expr`, and a kernel-checked counterexample showing the hypothesis necessary for the model (the corresponding defect of the Go code — `SAFE_CAST` written with back quotes did not re-parse — was found by this proof and is repaired). Proved for the ParseType entry point (lexer and parser model, MF/Model/TypeParse.lean tied to memefish.ParseType by the TYPE channel: every field, position, Pos()/End(), SQL()): for every accepted input, SQL() lexes and parses back to the same tree up to positions and prints the same text (MF.Props.C01.type_roundtrip), and so does every hand-built well-formed tree with non-empty names (type_roundtrip_tree); the lexer side is a piece-by-piece lexing theorem for the printed text (print_lexes). The flag rt of the TYPE channel evaluates the same statement with Go's lexer on Go's SQL() for every OK request.",
+        "level": "Proof (partial: a fragment). Explored on the real entry points: for every error-free parse of the corpus, probes, mutations and expression soups, SQL() re-parses with the same entry point to a tree equal up to position values and is a fixed point. Two recorded known findings (join method, empty PRIMARY KEY) are recognised by call site. PROVED for the expression fragment M1 of C07 (MF/Props/C01Expr.lean, on the models of lexer.go, parseExpr..parseLit and the SQL() methods): the byte-level round trip `roundtrip_expr_partial` (accepted input => the SQL() text lexes and parses to the same tree, under the necessary hypothesis that no identifier token reads SAFE_CAST / REPLACE_FIELDS), `printed_lexes` (the lexer reads the printed text of ANY tree with lexer-producible leaves as exactly the printer's tokens), `fixed_point_expr`, and a kernel-checked counterexample showing the hypothesis necessary for the model (the corresponding defect of the Go code — `SAFE_CAST` written with back quotes did not re-parse — was found by this proof and is repaired). Proved for the ParseType entry point (lexer and parser model, MF/Model/TypeParse.lean tied to memefish.ParseType by the TYPE channel: every field, position, Pos()/End(), SQL()): for every accepted input, SQL() lexes and parses back to the same tree up to positions and prints the same text (MF.Props.C01.type_roundtrip), and so does every hand-built well-formed tree with non-empty names (type_roundtrip_tree); the lexer side is a piece-by-piece lexing theorem for the printed text (print_lexes). The flag rt of the TYPE channel evaluates the same statement with Go's lexer on Go's SQL() for every OK request. The fragment models' printers and position formulas are proved equal to the interpretation of the regenerated tables (MF/Props/C19Bridge.lean: sql_bridge_expr, sql_bridge_type, prec_bridge, registered under C19): sqlE / sqlT / exprPrec of these theorems are the SQL() bodies, exprPrec and paren that tools/extract reads out of ast/sql.go on every run.",
         "design_ref": "DESIGN.md §4 C01",
         "note": "Theorems cover the expression fragment only and are about the models (tied to the code by the LEX and EXPR channels); everything else is exploration plus kernel-decided table obligations. Known findings are listed in known-findings.txt.",
         "technique": "Lean 4 proof for the expression fragment (lexer concatenation theorem + printer/lexer agreement + parser completeness) + table obligations + property predicate evaluated on the implementation",
@@ -142,7 +147,7 @@ TEXT = {
         "technique": "Lean 4 proof for the expression fragment (lexer concatenation theorem + printer/lexer agreement + parser completeness) + table obligations + property predicate evaluated on the implementation",
     },
     "C05": {
-        "level": "Proof (partial: a fragment). Explored on the real entry points: range, token alignment (with the >> split), nesting and sibling order of every node of every returned tree; Lean theorems about Pos()/End() as functions of the tree exist (C04/C19) but the parser-side alignment is not proved. Proved for the ParseType entry point: for every accepted input of the model (lexer + parser), every node - types, struct fields, identifiers - starts at a token start and ends at a token end ('>>' and '<>' counted as two one-byte tokens), satisfies 0 <= pos < end <= len, and contains its children in order without overlap (MF.Props.C05.type_positions); the known defect of a back-quoted simple type name (End() two bytes short) is excluded by hypothesis and reproduced by MF.Props.C05.type_positions_fails_backquoted. Proved for the expression fragment: for lexer output and a successful ParseExpr of the model with positions (MF/Model/ExprPos.lean, tied to the Go parser by the EXPRPOS channel), every Go node of the tree starts at the pos of a token and ends at the end of a token it consumed, so Pos < End <= len, children lie inside their parent, in source order without overlap (MF.Props.C05.expr_positions); a folded sign '- 1' is one literal over two tokens.",
+        "level": "Proof (partial: a fragment). Explored on the real entry points: range, token alignment (with the >> split), nesting and sibling order of every node of every returned tree; Lean theorems about Pos()/End() as functions of the tree exist (C04/C19) but the parser-side alignment is not proved. Proved for the ParseType entry point: for every accepted input of the model (lexer + parser), every node - types, struct fields, identifiers - starts at a token start and ends at a token end ('>>' and '<>' counted as two one-byte tokens), satisfies 0 <= pos < end <= len, and contains its children in order without overlap (MF.Props.C05.type_positions); the known defect of a back-quoted simple type name (End() two bytes short) is excluded by hypothesis and reproduced by MF.Props.C05.type_positions_fails_backquoted. Proved for the expression fragment: for lexer output and a successful ParseExpr of the model with positions (MF/Model/ExprPos.lean, tied to the Go parser by the EXPRPOS channel), every Go node of the tree starts at the pos of a token and ends at the end of a token it consumed, so Pos < End <= len, children lie inside their parent, in source order without overlap (MF.Props.C05.expr_positions); a folded sign '- 1' is one literal over two tokens. The fragment models' printers and position formulas are proved equal to the interpretation of the regenerated tables (MF/Props/C19Bridge.lean: pos_bridge_expr, pos_bridge_type, pos_bridge_field and the pos_doc_* variants, registered under C19): posP / endP / posT / endT / posF / endF of these theorems are the Pos() / End() methods that tools/extract reads out of ast/pos.go (and the // pos =, // end = lines of ast/ast.go) on every run.",
         "design_ref": "DESIGN.md §4 C05",
         "note": "Theorems cover the ParseType entry point and the expression fragment of ParseExpr only and are about the models (tied to the code by the LEX, TYPE and EXPRPOS channels); every other entry point and node kind is exploration. Known findings are listed in known-findings.txt.",
         "technique": "Lean 4 proof for ParseType and for the expression fragment with positions (erasure to the proved expression model; function-for-function parser model with positions, grammar as an inductive relation, lexer window/concatenation theorems) + TYPE correspondence channel + property predicate evaluated on the implementation (corpus, reference grammar G, grafts, edits, mutations)",
